@@ -19,7 +19,7 @@ From Coq Require Import Sorting.Permutation.
 
 (* ---- decoded content ------------------------------------------------------------------ *)
 
-(* every applicable operation (all 16 constructors of `op`) changes the content exactly as specified *)
+(* every applicable operation (all 17 constructors of `op`) changes the content exactly as specified *)
 Theorem C08_step_content : forall t o t',
   apply o t = Some t' -> abs t' = spec_apply o (abs t).
 Proof. exact step_content. Qed.
@@ -78,6 +78,27 @@ Theorem C08_order_sort : forall l,
   Permutation (e_sort l) l /\ sorted_by (fun a b => key_leb (fst a) (fst b) = true) (e_sort l).
 Proof. intro l. split; [apply e_sort_perm|apply e_sort_sorted]. Qed.
 Print Assumptions C08_order_sort.
+
+(* sort_values_by (the 17th operation; comparators `scmp`: keys descending / by rank with ties; `il` = the table is an
+   inline table, whose closure sees values only): the same entries, in the comparator's order, and STABLE — a class
+   of entries the comparator ties pairwise (for `CRank`: all non-integers; integers of one value) keeps its order *)
+Theorem C08_order_sort_by : forall c il l,
+  Permutation (Spec.Ordered.stable_sort (scmp_le c il) l) l
+  /\ sorted_by (fun a b => scmp_le c il a b = true) (Spec.Ordered.stable_sort (scmp_le c il) l)
+  /\ forall p : bytes * plain -> bool, (forall a b, p a = true -> p b = true -> scmp_le c il a b = true) ->
+                filter p (Spec.Ordered.stable_sort (scmp_le c il) l) = filter p l.
+Proof.
+  intros c il l. split; [apply sort_by_perm|]. split; [apply sort_by_sorted|].
+  intros p H. apply stable_sort_stable. exact H.
+Qed.
+Print Assumptions C08_order_sort_by.
+
+(* the instance of C08_step_content, spelled out: the caller's comparator orders the table at p AND, recursively,
+   the dotted tables of the same kind below it (spec_sort_by) *)
+Theorem C08_sort_by_content : forall p c t t',
+  apply (OSortBy p c) t = Some t' -> abs t' = spec_at p (spec_sort_by c) (abs t).
+Proof. intros p c t t' H. exact (step_content t (OSortBy p c) t' H). Qed.
+Print Assumptions C08_sort_by_content.
 
 (* array insert: the elements before the index and from the index on keep their order around the new one *)
 Theorem C08_order_array_insert : forall (i : nat) (x : plain) l, i <= length l ->
@@ -425,6 +446,20 @@ Theorem C08_order_free : forall o t t',
 Proof. exact order_free_ok. Qed.
 Print Assumptions C08_order_free.
 
+(* sort_values / sort_values_by move whole entries, the positions of the sections with them: on a TABLE their side
+   condition for order_ok is `order_side` (the check of the result); on an INLINE table nothing can break *)
+Theorem C08_sort_inline_order : forall o p t t',
+  sort_path o = Some p -> node_sat p is_value_node (ITable t) = true ->
+  apply o t = Some t' -> order_ok t -> order_ok t'.
+Proof. exact sort_inline_order_ok. Qed.
+Print Assumptions C08_sort_inline_order.
+
+(* Model/Edit.v defines sort_values_by on association lists with distinct keys (the IndexMap invariant; used by the
+   verbatim theorems only).  Every well-formed node has it: there sort_values_by is defined exactly where sort_values is *)
+Theorem C08_sort_by_defined : forall cm c i, iwf c i -> (op_sort_by cm i = None <-> op_sort i = None).
+Proof. exact op_sort_by_defined. Qed.
+Print Assumptions C08_sort_by_defined.
+
 Theorem C08_history_wf_text : forall ops t t',
   WF t -> apply_seq ops t = Some t' -> history_side ops t = true -> WF t'.
 Proof. exact history_WF. Qed.
@@ -625,5 +660,47 @@ x = 1
 y = 2
 ") (fun r => negb (order_b r) && history_slot_side ex_ops2 r
              && match apply_seq ex_ops2 r with Some r' => negb (replay_ok r') && replay_unordered_ok r' | None => false end) false
+  = true.
+Proof. vm_compute. reflexivity. Qed.
+
+(* ---- sort_values_by on examples (closed booleans) ---- *)
+Definition print_after (s : bytes) (ops : list op) : bytes :=
+  match root_of s with
+  | Some r => match apply_seq ops r with Some r' => display_document r' REmpty | None => [] end
+  | None => []
+  end.
+
+(* the comparator reaches the dotted keys (the seeded change C08-sort-values-by-ignores-comparator-dotted sorts them
+   ascending); every line keeps its comment *)
+Example ex_sort_by_kdesc :
+  bytes_eqb
+    (print_after (str "version = 1
+name = ""x"" # n
+dep.mid = 2
+dep.zeta = 3 # z
+dep.alpha = 1
+") [OSortBy [] CKeyDesc])
+    (str "version = 1
+name = ""x"" # n
+dep.zeta = 3 # z
+dep.mid = 2
+dep.alpha = 1
+") = true.
+Proof. vm_compute. reflexivity. Qed.
+
+(* by rank: non-integers first (tied: in their old order), then integers by value (1 = 1 tied: `y` stays before `z`);
+   in the inline table too, dotted keys included *)
+Example ex_sort_by_rank :
+  bytes_eqb
+    (print_after (str "t = { b = 2, g.y = 1, g.x = ""s"", g.z = 1, a = 2 }
+") [OSortBy [SKey (str "t")] CRank])
+    (str "t = { g.x = ""s"", g.y = 1, g.z = 1, b = 2, a = 2 }
+") = true.
+Proof. vm_compute. reflexivity. Qed.
+
+(* the side conditions of the new operation hold on the example document, and it is verbatim-untouching everywhere *)
+Example ex_sort_by_sides :
+  on_root ex_src (history_side [OSortBy [] CKeyDesc; OSortBy [SKey (str "t"); SKey (str "k")] CRank]) false
+  && untouched (OSortBy [] CRank) [SKey (str "a")] && untouched_frag (OSortBy [] CRank) [SKey (str "a")] false
   = true.
 Proof. vm_compute. reflexivity. Qed.
